@@ -99,6 +99,20 @@ def concrete_pp(inp):
         return {"ok": True, "detail": "outside domain"}
     mix = _fmix(inp)
     bad = []
+    for frost in (False, True):
+        if not frost:
+            continue
+        # a mixture whose second component has Frost vapour-pressure constants: the saturation pressure is the component's own equation
+        import attr
+        c2 = attr.evolve(mix.second_component, vapour_pressure_constants=pv.VaporPressureConstants(a=16.0, b=-3800.0, c=-200000.0, type="frost"))
+        mf = attr.evolve(mix, second_component=c2)
+        for model in ("NRTL", "UNIQUAC"):
+            cm = mixmod.Composition(x, "molar")
+            g = mixmod.calculate_activity_coefficients(T, mf, cm, model)
+            p = mixmod.get_partial_pressures(T, mf, cm, model)
+            want = (mf.first_component.get_vapor_pressure(T) * g[0] * x, c2.get_vapor_pressure(T) * g[1] * (1 - x))
+            if not (close(p[0], want[0], 1e-9) and close(p[1], want[1], 1e-9)):
+                bad.append("%s, second component with Frost constants: partial pressures %r != x*gamma*Psat %r" % (model, tuple(map(float, p)), tuple(map(float, want))))
     for model in ("NRTL", "UNIQUAC"):
         cm = mixmod.Composition(x, "molar")
         g = mixmod.calculate_activity_coefficients(T, mix, cm, model)
@@ -314,6 +328,34 @@ def pressures(job):
                 job.twin_sat(tag + "/twin", cs)
             if n == 0:
                 job.vacuity["failed"].append(model)
+    # the saturation pressure is the component's own equation: the real get_vapor_pressure of an Antoine and of a Frost component runs
+    for kinds in (("antoine", "frost"), ("frost", "antoine")):
+        c1, c2 = build.sym_component("1", vp_type=kinds[0]), build.sym_component("2", vp_type=kinds[1])
+        mixk = build.sym_mixture(c1, c2)
+        domk = build.domain_T(T) + [x.t > 0, x.t < 1, c1.molecular_weight.t > 0, c2.molecular_weight.t > 0]
+        for c in (c1, c2):
+            if c.vapour_pressure_constants.type == "antoine":
+                domk.append(T.t + c.vapour_pressure_constants.c.t != 0)
+        with Patches() as pt:
+            build.stub_thermo(pt, mixk, gamma=True, psat=False)
+            build.assume_validator(pt)
+
+            def runk():
+                return mixmod.get_partial_pressures(T, mixk, build.comp(x, "molar"), "NRTL"), c1.get_vapor_pressure(T), c2.get_vapor_pressure(T)
+
+            tagk = "C04/partial_pressures/%s+%s" % kinds
+            nk = 0
+            for leaf in job.explore(runk, domk):
+                if leaf.kind != "returned":
+                    job.prove(tagk + "/no_raise", domk + leaf.pc, z3.BoolVal(True), R_PP, inputs, fallback=fb)
+                    continue
+                nk += 1
+                pm, s1, s2 = leaf.value
+                job.prove(tagk + "/law_with_each_components_own_equation", domk + leaf.conds(),
+                          z3.Or(lift(pm[0]) != lift(s1) * UF("GAMMA1_NRTL", T, x, pos=True) * x.t, lift(pm[1]) != lift(s2) * UF("GAMMA2_NRTL", T, x, pos=True) * (1 - x.t)),
+                          R_PP, inputs, fallback=fb, congruence=["EXP"])
+            if nk == 0:
+                job.vacuity["failed"].append(tagk)
 
 
 def basis(job):
